@@ -286,11 +286,16 @@ func beLoopStore(st *ssa.Store, ia *ssa.IndexAddr) (lo, n int64, src ssa.Value, 
 		return 0, 0, nil, false
 	}
 	var iv ssa.Value
+	step := int64(1)
 	for s, k := range idx.Terms {
-		if k != 1 {
+		if k != 1 && k != -1 {
 			return 0, 0, nil, false
 		}
-		iv = s
+		iv, step = s, k
+	}
+	if step == -1 {
+		// header[K-i] = byte(src >> (8*i)), i = 0 … n-1: least significant byte last, big-endian in header[K-n+1 : K+1]
+		return beLoopStoreDown(st, idx.C, iv)
 	}
 	ph, isPhi := iv.(*ssa.Phi)
 	if !isPhi {
@@ -330,6 +335,44 @@ func beLoopStore(st *ssa.Store, ia *ssa.IndexAddr) (lo, n int64, src ssa.Value, 
 		return 0, 0, nil, false
 	}
 	return idx.C, n, stripIntWiden(sh.X), true
+}
+
+func beLoopStoreDown(st *ssa.Store, top int64, iv ssa.Value) (lo, n int64, src ssa.Value, ok bool) {
+	ph, isPhi := iv.(*ssa.Phi)
+	if !isPhi {
+		return 0, 0, nil, false
+	}
+	startsAtZero := false
+	for _, e := range ph.Edges {
+		if k, isK := intConst(e); isK && k == 0 {
+			startsAtZero = true
+		} else if d := symAff(e, 0).add(affSym(ph), -1); !d.isConst() || d.C != 1 {
+			return 0, 0, nil, false
+		}
+	}
+	cv, isC := st.Val.(*ssa.Convert)
+	if !isC {
+		return 0, 0, nil, false
+	}
+	sh, isS := cv.X.(*ssa.BinOp)
+	if !isS || sh.Op != token.SHR {
+		return 0, 0, nil, false
+	}
+	amt := symAff(sh.Y, 0)
+	if len(amt.Terms) != 1 || amt.Terms[iv] != 8 || amt.C != 0 {
+		return 0, 0, nil, false
+	}
+	for _, a := range AtomsAt(st) {
+		if a.Kind == "cmp" && a.Op == token.LSS && stripIntConv(a.X) == iv {
+			if k, isK := intConst(a.Y); isK {
+				n = k
+			}
+		}
+	}
+	if !startsAtZero || (n != 2 && n != 4 && n != 8) || top-n+1 < 0 {
+		return 0, 0, nil, false
+	}
+	return top - n + 1, n, stripIntWiden(sh.X), true
 }
 
 // absByte: one byte of a buffer under construction — a constant, byte k (from the least significant) of a value, or the
